@@ -193,6 +193,25 @@ func (w *World) genVCs(fn *ssa.Function, useH bool, dropped, hcount map[string]b
 	rv, out, rr := c.exec(fn, args, st, "true", 0)
 	if ct != nil && rr != "false" {
 		penv := &CEnv{c: c, st: out, old: c.entryState, lookup: mkLookup(names, args, rv), pkg: names.pkg}
+		if len(ct.Ghosts) > 0 {
+			// ghost results: the value of an expression over the function's locals in the (merged) return state
+			lenv := c.contractEnvLocal(c.rootFrame, out)
+			gv := map[string]CVal{}
+			for _, g := range ct.Ghosts {
+				v := c.evalExpr(lenv, g.Expr.Expr)
+				if t := basicTypes[g.Type]; t != nil {
+					v = c.materialize(v, t)
+				}
+				gv[g.Name] = v
+			}
+			base := penv.lookup
+			penv.lookup = func(name string, old bool) (CVal, bool) {
+				if v, ok := gv[name]; ok {
+					return v, true
+				}
+				return base(name, old)
+			}
+		}
 		for k, en := range ct.Ensures {
 			if en.Tier == "thorough" && tier != "thorough" {
 				continue
